@@ -137,14 +137,14 @@ def c15_3(R):
         t = list(scaled.values())[0]
         if t.kind == "rv" and t.root[1].rv.kind == "bin" and t.root[1].rv.op == "Div":
             a, c = t.root[1].rv.ops
-            if trace(b, a).last_field == "Cubic.mss" and ("param", "mss") in value_sources(b, c):
+            if trace(b, a).last_field == "Cubic.mss" and ("param", 2) in value_sources(b, c):  # set_mss(self, mss)
                 shape = True
     if set(scaled) == want and same and shape:
         R.ok("uniform-rescale", b.name, "cwnd, ssthresh, w_max, w_max_last *= old_mss / new_mss")
     else:
         R.fail([b.name, "rescale", "fields=%s same=%s old/new=%s" % (sorted(f.split(".")[1] for f in scaled), same, shape)], "set_mss no longer rescales all four window quantities by old_mss / new_mss", where=b.where(), instance="uniform-rescale")
     wm = [s for s in b.stmts() if written_field(b, s) == "Cubic.mss"]
-    if wm and value_sources(b, wm[0].rv.ops[0]) == {("param", "mss")} and all(s.bb in b.reachable(x.bb) for s in wm for x in b.stmts() if field_update(b, x) and field_update(b, x).op == "*="):
+    if wm and value_sources(b, wm[0].rv.ops[0]) == {("param", 2)} and all(s.bb in b.reachable(x.bb) for s in wm for x in b.stmts() if field_update(b, x) and field_update(b, x).op == "*="):
         R.ok("mss-stored-after-rescale", b.name)
     else:
         R.fail([b.name, "mss-store"], "set_mss does not store the new mss after rescaling", where=b.where(), instance="mss-stored-after-rescale")
